@@ -20,8 +20,8 @@ def probes(entry, X, rng):
     return numpy.array(rows, dtype=X.dtype)
 
 
-def scenario(hist, entry, rng):
-    a = entry.make(rng.randint(0, 1))
+def scenario(hist, entry, rng, variant=0):
+    a = entry.make(variant)
     hist.new(a)
     X, y = entry.data(rng)
     ok, _ = lifecycle.do_fit(hist, a, X, y, entry, rng.randint(0, 999), "A")
@@ -62,7 +62,7 @@ def run(ctx):
         for rep in range(4 if thorough else 2):
             tid += 1
             hist = lifecycle.History(tid, "C04 " + entry.name, "batch / permutation / sub-batch / single rows / pickle / clone-with-fitted")
-            scenario(hist, entry, rng)
+            scenario(hist, entry, rng, rep % 2)
             ctx.case((entry.name, rep), sample=dict(kind="history", cls=entry.name,
                                                     events=[(e["a"], e.get("method", e.get("how", "")), e.get("note", "")) for e in hist.t["ev"][:9]]))
             traces.append(hist.t)
